@@ -54,7 +54,11 @@ def gen_prefix(r):
 
 def classify(rpcs, conc, serials):
   """Known-finding id for a non-serialisable outcome, or None."""
-  kinds = sorted(x[0] for x in rpcs)
+  kinds = [x[0] for x in rpcs]
+  if conc['deadlock']:
+    return None
+  if 'DeleteStudy' in kinds or 'SetStudyState' in kinds:
+    return 'C04-guard-outside-lock'
   return None
 
 
@@ -112,7 +116,7 @@ def run(tier, seed):
       ok = any(conc.equivalent(res, s, res['before']) for s in serials)
       unfinished = [x for k_, nn in svcmon.nodes_of(res['snapshot']).items() for x in nn['ops'] if not x['done']]
       if not ok or unfinished:
-        fid = classify(rpcs, res, serials)
+        fid = classify(rpcs, res, serials) if not unfinished else None
         what = ('interleaving of %s and %s is not equivalent to any serial order' % (ka, kb)) if not ok else 'an operation is left unfinished solely because of the interleaving'
         if fid and fid in known:
           rep.known(fid, known[fid]['what'])
